@@ -9,6 +9,7 @@ import (
 	"fmt"
 	"go/token"
 	"regexp"
+	"sort"
 	"strconv"
 	"strings"
 	"sync"
@@ -68,6 +69,42 @@ func renderReal2(name string, fsetContent, content string, line, col int, readEr
 	}()
 	rep := reporting.NewReporter(pass, nil)
 	rep.ReportViolation(fakeViolation{"IMM01", pos, "synthetic message"})
+	return
+}
+
+// renderSeqReal reports several violations through ONE Reporter (as an analyzer does) and returns the messages in order.
+func renderSeqReal(files map[string]string, at [][3]any) (msgs []string, panicked any) {
+	fset := token.NewFileSet()
+	tf := map[string]*token.File{}
+	names := []string{}
+	for n := range files {
+		names = append(names, n)
+	}
+	sort.Strings(names)
+	for _, n := range names {
+		f := fset.AddFile(n, -1, len(files[n]))
+		f.SetLinesForContent([]byte(files[n]))
+		tf[n] = f
+	}
+	pass := &analysis.Pass{Fset: fset}
+	pass.ReadFile = func(fn string) ([]byte, error) {
+		if c, ok := files[fn]; ok {
+			return []byte(c), nil
+		}
+		return nil, errors.New("no such file")
+	}
+	pass.Report = func(d analysis.Diagnostic) { msgs = append(msgs, d.Message) }
+	defer func() {
+		if r := recover(); r != nil {
+			panicked = r
+		}
+	}()
+	rep := reporting.NewReporter(pass, nil)
+	for _, a := range at {
+		f := tf[a[0].(string)]
+		pos := f.LineStart(a[1].(int)) + token.Pos(a[2].(int)-1)
+		rep.ReportViolation(fakeViolation{"IMM01", pos, "synthetic message"})
+	}
 	return
 }
 
@@ -179,6 +216,10 @@ func judge19(c c19case, limit int) (key, detail string) {
 		disk = strings.Join(c.DiskLines, "\n") + "\n"
 	}
 	msg, reported, pan := renderReal2("/virtual/x.go", content, disk, c.Line, c.Col, c.ReadErr)
+	return judgeMsg(c, limit, msg, reported, pan)
+}
+
+func judgeMsg(c c19case, limit int, msg string, reported bool, pan any) (key, detail string) {
 	if pan != nil {
 		return "render/panic", fmt.Sprintf("Reporter panicked: %v", pan)
 	}
@@ -427,6 +468,65 @@ func checkC19(replay string) {
 		atomic.AddInt64(&cases, 1)
 		mu.Lock()
 		flavours[flav]++
+		mu.Unlock()
+	})
+	// 2b. several violations through one Reporter: same long line at different columns, other lines, other files
+	nSeq := r.Pick(3000, 40000)
+	base.Par(nSeq, 0, func(i int) {
+		rg := base.NewRand(r.Seed, fmt.Sprintf("c19seq-%d", i))
+		mk := func(salt int) []string {
+			var ls []string
+			for k := 0; k < 3+rg.Intn(4); k++ {
+				n := rg.Intn(3 * limit)
+				if rg.Chance(1, 3) {
+					n = limit + 1 + rg.Intn(2*limit)
+				}
+				ls = append(ls, asciiLine(n, salt*31+k))
+			}
+			return ls
+		}
+		fl := map[string][]string{"/virtual/a.go": mk(i), "/virtual/b.go": mk(i + 1)}
+		content := map[string]string{}
+		for n, ls := range fl {
+			content[n] = strings.Join(ls, "\n") + "\n"
+		}
+		var at [][3]any
+		var cs []c19case
+		hot := 1 + rg.Intn(len(fl["/virtual/a.go"]))
+		for k := 0; k < 2+rg.Intn(5); k++ {
+			name := "/virtual/a.go"
+			line := hot
+			if rg.Chance(1, 4) {
+				name = "/virtual/b.go"
+				line = 1 + rg.Intn(len(fl[name]))
+			} else if rg.Chance(1, 4) {
+				line = 1 + rg.Intn(len(fl[name]))
+			}
+			src := fl[name][line-1]
+			col := 1
+			if len(src) > 0 {
+				col = 1 + rg.Intn(len(src))
+			}
+			at = append(at, [3]any{name, line, col})
+			cs = append(cs, c19case{Lines: fl[name], Line: line, Col: col})
+		}
+		msgs, pan := renderSeqReal(content, at)
+		if pan != nil {
+			report(cs[0], "render/panic", fmt.Sprintf("Reporter panicked in a sequence: %v", pan))
+			return
+		}
+		if len(msgs) != len(at) {
+			report(cs[0], "render/nothing-reported", fmt.Sprintf("%d violations reported through one Reporter, %d messages", len(at), len(msgs)))
+			return
+		}
+		for k := range at {
+			if key, d := judgeMsg(cs[k], limit, msgs[k], true, nil); key != "" {
+				report(cs[k], "sequence/"+key, fmt.Sprintf("message %d of %d reported through ONE Reporter (positions %v): %s", k+1, len(at), at, d))
+			}
+		}
+		atomic.AddInt64(&cases, int64(len(at)))
+		mu.Lock()
+		flavours["sequence-one-reporter"] += len(at)
 		mu.Unlock()
 	})
 	// 3. degraded inputs
